@@ -582,6 +582,23 @@ func (in *inst) stmt(st ast.Stmt) (pre []ast.Stmt, repl ast.Stmt, post []ast.Stm
 		return nil, in.goStmt(s), nil
 	case *ast.DeferStmt:
 		in.funcLitsIn(s.Call)
+		if _, isLit := s.Call.Fun.(*ast.FuncLit); !isLit && in.isBlockingCall(s.Call) {
+			// defer x.Wait()  ->  defer func() { Yield; x.Wait(); AfterBlock }()
+			if len(s.Call.Args) == 0 {
+				in.counts["defer-blocking"]++
+				call := *s.Call
+				s.Call = &ast.CallExpr{Fun: &ast.FuncLit{
+					Type: &ast.FuncType{Params: &ast.FieldList{}},
+					Body: &ast.BlockStmt{List: []ast.Stmt{
+						in.rtCall("Yield", in.site(s)),
+						&ast.ExprStmt{X: &call},
+						in.rtCall("AfterBlock", in.site(s)),
+					}},
+				}}
+			} else {
+				in.warns = append(in.warns, fmt.Sprintf("%s: deferred blocking call with arguments is not annotated", in.site(s).Value))
+			}
+		}
 		return
 	}
 	// simple statements
